@@ -288,7 +288,7 @@ def _tail_supported_stress(
         )
 
     magnitude = np.sqrt(stress_north**2 + stress_east**2)
-    direction = np.arctan2(stress_north, stress_east) % 360
+    direction = (np.arctan2(stress_north, stress_east) * 180 / np.pi) % 360
     return magnitude, direction
 
 
